@@ -868,7 +868,10 @@ func (st *Stack) Clean() error {
 		return err
 	}
 
-	max := st.merged.MaxUpdateIndex()
+	var max uint64
+	if len(st.stack) > 0 {
+		max = st.merged.MaxUpdateIndex()
+	}
 	for _, e := range entries {
 		name := e.Name()
 		if _, ok := names[name]; ok {
